@@ -382,9 +382,19 @@ func c07Compare(c *vk.Ctx, key string, a *app.App, cfg app.Config, hist []string
 				continue
 			}
 			pr := app.NewPerRequest(a, cfg, b)
+			// every fourth case: at PRNG points the store refuses the save once (session data type locked while Finish
+			// runs); the client sees the error, the lock is lifted, Finish is repeated - and nothing may be different
+			rf := c.RNG(key + "/refuse-finish/" + bk)
+			refusing := vk.Hash64(key, "refuse-finish")%4 == 0
 			for step, in := range hist[:len(ref)] {
 				c.Note(bk + " " + in)
+				if refusing && rf.Chance(1, 3) {
+					pr.RefuseFinishNext = true
+				}
 				o := pr.Request([]byte(in))
+				if o.FinishRefused != "" {
+					c.Count("saves_refused_once_and_repeated", 1)
+				}
 				c.Count("requests_persisted_"+bk, 1)
 				if c.Only != "" && bk == "mem" {
 					fmt.Fprintf(os.Stderr, "PR  %s\n    state=%+v\n    events=%v\n", o.Brief(), o.State, o.Events)
@@ -484,7 +494,13 @@ func c07Compare(c *vk.Ctx, key string, a *app.App, cfg app.Config, hist []string
 								pr.Res.Calls = calls
 								c.Count("abandoned_requests", 1)
 							}
+							if pass == 1 && vk.Hash64(key, "refuse-finish")%2 == 0 && ra.Chance(1, 6) {
+								pr.RefuseFinishNext = true // the store refuses this request's save once; Finish is repeated
+							}
 							o := pr.Request([]byte(h[step]))
+							if o.FinishRefused != "" {
+								c.Count("saves_refused_once_and_repeated", 1)
+							}
 							c.Count("interleaved_requests", 1)
 							c.Count("interleaved_requests:persister-"+mode, 1)
 							ro := rf[step]
@@ -498,7 +514,7 @@ func c07Compare(c *vk.Ctx, key string, a *app.App, cfg app.Config, hist []string
 								what := "a persister of its own per request"
 								if pass == 1 {
 									sig = "interleaved-sessions-diverge:shared-persister-" + mode + ":" + bk
-									what = "one shared persister object (" + mode + "), some requests abandoned before Finish"
+									what = "one shared persister object (" + mode + "), some requests abandoned before Finish, some saves refused once and repeated"
 								}
 								violate(sig, fmt.Sprintf("two sessions alternating on one %s store, %s: session %d step %d: uninterrupted %s | persisted %s", bk, what, which+1, step, ro.Brief(), o.Brief()), key,
 									map[string]interface{}{"backend": bk, "config": cfg, "app": a.Describe(), "history_session_1": hist, "history_session_2": hist2, "persister": mode})
